@@ -149,7 +149,7 @@ ClampVol(v) == Max(0, Min(100, v))
 (* period, rest of frame).  Bookkeeping as in the documentation's terms:    *)
 (*   D    the delay as adjusted so far (real time if the rest is unhindered)*)
 (*   el   real time of the delay already accounted for                      *)
-(* Choices the documentation does not make (all [impl], see Variants):      *)
+(* Choices the documentation does not make (all [impl], built into Walk):     *)
 (*   - scaled amounts are truncated to whole T-states                       *)
 (*   - a delay that ends exactly on the frame boundary takes the interrupt  *)
 (*   - when the first delay starts at position 0 the interrupt is taken to  *)
